@@ -230,6 +230,21 @@ def rule_f(repo, chk):
         f = repo.find_method(ci, m)
         subs = [n for n in own_nodes(f) if isinstance(n, ast.Subscript) and norm(n.value) == 'self._code_lines']
         chk.ob('C07.f', not subs, f, 'Script.%s does not index the code lines itself (it forwards to get_references, see C01.a)' % m)
+    # the end of the range is optional: Script passes until_pos = None when no range was given (derived from Script.extract_*), so the
+    # functions of refactoring/extract.py dereference their `until_pos` parameter only under a None test
+    passes_none = any(isinstance(a.value, ast.Constant) and a.value.value is None and norm(a.targets[0]) == 'until_pos'
+                      for m_ in ('extract_variable', 'extract_function') for a in stmts_in(repo.find_method(ci, m_), ast.Assign))
+    chk.ob('C07.f', passes_none, ci.node, 'Script.extract_* pass until_pos = None when no range is given (premise of the next obligations)')
+    from ..lib import derefs_of, none_safe
+    k = 0
+    for q_, g_ in sorted(repo.module(EXT).defs.items()):
+        if isinstance(g_, FUNC_TYPES) and 'until_pos' in params(g_):
+            for u in derefs_of(g_, 'until_pos'):
+                k += 1
+                w = none_safe(g_, u, 'until_pos')
+                chk.ob('C07.f', w is None, u, '`%s` in extract.%s: the optional end of the range is dereferenced under a None test' % (short(u), q_),
+                       'without a range this raises TypeError instead of RefactoringError: %s' % w if w else '', key='until_pos-none|%s|%s' % (q_, norm(u)))
+    chk.floor('C07.f', k, 1, '(dereferences of until_pos in extract.py)')
     # the same for every other method of Script (helpers included): a subscript of self._code_lines by anything but the decorator-validated
     # `line` needs the range test in front of it, in the method that indexes
     n = 0
